@@ -44,6 +44,6 @@ def one(d):
     finally:
         shutil.rmtree(repo, ignore_errors=True)
 dirs = sys.argv[1:]
-with ThreadPoolExecutor(max_workers=4) as ex:
+with ThreadPoolExecutor(max_workers=7) as ex:
     for r in ex.map(one, dirs):
         print(json.dumps(r))
